@@ -351,33 +351,59 @@ func (c *Ctx) c11Add(m *fsModel) {
 
 func (c *Ctx) c11Remove(m *fsModel) {
 	r, p := c.R, c.P
-	rm := p.Method("pkg/storage/file", "mbox", "removeMessage")
-	if rm == nil {
-		return
-	}
-	var widx *ssa.Call
-	var unlinks []*ssa.Call
-	eng.EachInstr(rm, func(in ssa.Instruction) {
-		call, ok := in.(*ssa.Call)
-		if !ok {
-			return
+	newMsg := p.Method("pkg/storage/file", "mbox", "newMessage")
+	// every unlink of the raw file of an INDEXED message (anything but the message AddMessage
+	// has just created and not yet indexed) must follow a successful index update
+	n := 0
+	ord := map[string]int{}
+	for _, e := range m.effects {
+		if e.op != "Remove" || e.class[0] != "raw" {
+			continue
 		}
-		if eng.StaticCallee(call.Common()) == m.writeIdx {
-			widx = call
+		rc := e.call.Call.Args[0].(*ssa.Call)
+		msg := rc.Call.Args[0]
+		// fresh = result of the message constructor in this function
+		fresh := false
+		for _, v := range append(eng.ValueAliases(msg), msg) {
+			if ex, ok := v.(*ssa.Extract); ok {
+				if call, ok := ex.Tuple.(*ssa.Call); ok && eng.StaticCallee(call.Common()) == newMsg {
+					fresh = true
+				}
+			}
 		}
-		if eng.CalleeName(call.Common()) == "os.Remove" && m.pathClass(call.Call.Args[0], 0) == "raw" {
-			unlinks = append(unlinks, call)
+		if ad := eng.LoadAddr(msg); ad != nil && !fresh {
+			if cell := eng.CellOf(ad); cell != nil {
+				for _, st := range eng.CellStores(cell) {
+					if ex, ok := st.Val.(*ssa.Extract); ok {
+						if call, ok := ex.Tuple.(*ssa.Call); ok && eng.StaticCallee(call.Common()) == newMsg {
+							fresh = true
+						}
+					}
+				}
+			}
 		}
-	})
-	r.Floor("C11/ORDER/remove", "raw unlinks in removeMessage", len(unlinks), 1)
-	for _, u := range unlinks {
-		cons := shortFn(rm)
-		if widx != nil && eng.Dominates(widx, u) && knownNilAt(widx, u.Block()) {
-			r.Ok("C11/ORDER/remove", cons, p.InstrPos(u), "raw file is unlinked only after the index update succeeded")
+		if fresh {
+			continue
+		}
+		n++
+		cons := siteCons(p, e.call, ord, "unlink-indexed")
+		okDom := false
+		eng.EachInstr(e.fn, func(in ssa.Instruction) {
+			call, ok := in.(*ssa.Call)
+			if !ok || eng.StaticCallee(call.Common()) != m.writeIdx {
+				return
+			}
+			if eng.Dominates(call, e.call) && knownNilAt(call, e.call.Block()) {
+				okDom = true
+			}
+		})
+		if okDom {
+			r.Ok("C11/ORDER/remove", cons, p.InstrPos(e.call), "raw file is unlinked only after the index update succeeded")
 		} else {
-			r.Bad("C11/ORDER/remove", cons, p.InstrPos(u), "the raw file is unlinked without a preceding successful index update: a crash in between leaves an index entry whose body is gone")
+			r.Bad("C11/ORDER/remove", cons, p.InstrPos(e.call), "the raw file of an indexed message is unlinked without a preceding successful index update in %s: if the operation stops or fails afterwards the index still lists a message whose body is gone", shortFn(e.fn))
 		}
 	}
+	r.Floor("C11/ORDER/remove", "unlinks of indexed messages' raw files", n, 1)
 }
 
 func (c *Ctx) c11Purge(m *fsModel) {
